@@ -6,7 +6,9 @@ import (
 	"net/http"
 	"net/http/httptest"
 	"net/url"
+	"runtime"
 	"sort"
+	"sync"
 	"time"
 
 	"github.com/gorilla/mux"
@@ -249,6 +251,65 @@ func checkC06(c *hx.Ctx) {
 				c.Count("inner_id_cuts")
 			}
 		}
+		// ---- one long-lived processor shared by concurrent callers that ask for different versions at once: every caller gets
+		// what it would get alone (options of one call must not reach another)
+		if i%6 == 0 {
+			var pubOps []*ref.Op
+			for _, o := range H {
+				if o.Published() {
+					pubOps = append(pubOps, o)
+				}
+			}
+			cstore := hx.NewOpStore()
+			cstore.Set(u.Suffix, ToAnchored(u.Suffix, pubOps))
+			cstore.GetHook = func() { runtime.Gosched(); time.Sleep(20 * time.Microsecond) }
+			proc := processor.New("verif", cstore, pc)
+			type query struct {
+				name string
+				opts []document.ResolutionOption
+				want string
+			}
+			qs := []query{{name: "latest"}}
+			po := ref.Order(pubOps)
+			for _, o := range po {
+				qs = append(qs, query{name: "versionId=" + o.Ref, opts: []document.ResolutionOption{document.WithVersionID(o.Ref)}},
+					query{name: fmt.Sprintf("versionTime=%d", o.Time), opts: []document.ResolutionOption{document.WithVersionTime(rfc3339(o.Time))}})
+			}
+			if len(qs) > 9 {
+				qs = qs[:9]
+			}
+			for k := range qs {
+				rm, err := proc.Resolve(u.Suffix, qs[k].opts...)
+				qs[k].want = rmKey(rm, err)
+			}
+			var wg sync.WaitGroup
+			var mu sync.Mutex
+			problem := ""
+			for g := range qs {
+				wg.Add(1)
+				go func(g int) {
+					defer wg.Done()
+					for round := 0; round < 5; round++ {
+						rm, err := proc.Resolve(u.Suffix, qs[g].opts...)
+						if got := rmKey(rm, err); got != qs[g].want {
+							mu.Lock()
+							if problem == "" {
+								problem = fmt.Sprintf("Resolve(%s) gave a state while other callers were resolving other versions that differs from the state it gives alone\n   alone:      %s\n   concurrent: %s", qs[g].name, qs[g].want, got)
+							}
+							mu.Unlock()
+							return
+						}
+					}
+				}(g)
+			}
+			wg.Wait()
+			c.Eval()
+			if problem != "" {
+				c.Violation("C06 "+problem+" :: ["+histString(pubOps)+"]", map[string]interface{}{"suffix": u.Suffix, "history": replayOps(pubOps)})
+				return
+			}
+			c.Count("concurrent_version_queries")
+		}
 		// unknown version id
 		c.Eval()
 		if _, err := SUTResolve(pc, u.Suffix, H, nil, document.WithVersionID("no-such-reference")); err == nil {
@@ -342,6 +403,7 @@ func checkC06(c *hx.Ctx) {
 		}
 	})
 	c.Floor("inner_time_cuts", 200)
+	c.Floor("concurrent_version_queries", 50)
 	c.Floor("time_cuts_with_additional_operations", 200)
 	c.Floor("id_cuts_with_additional_operations", 100)
 	c.Floor("unpublished_ops_inside_the_anchored_time_range", 20)
